@@ -432,7 +432,7 @@ def positional_cases():
         # --- arguments.args (nested function): annotation and name at position k
         params = ["a: int", "c: int", "d: int"]
         C(f"pos:arguments.args/annotation/{k}of3", f"def g({', '.join(params)}) -> int:\n    return a\nreturn g(x, y, 1)",
-          f"def g({', '.join(_subst(params, k, 'abcd'[k if k else 0] .replace('b', 'c') + ': bool' if False else params[k].split(':')[0] + ': bool'))}) -> int:\n    return 0\nreturn g(x, y, 1)".replace("return 0", "return 0"), exp=B)
+          f"def g({', '.join(_subst(params, k, params[k].split(':')[0] + ': bool'))}) -> int:\n    return 0\nreturn g(x, y, 1)", exp=B)
         C(f"pos:arguments.args/name/{k}of3", f"def g({', '.join(params)}) -> int:\n    return a + 2 * c + 3 * d\nreturn g(x, y, 1)",
           f"def g({', '.join(_subst(params, k, 'w: int'))}) -> int:\n    return a + 2 * c + 3 * d\nreturn g(x, y, 1)", exp=B)
         # --- With.items: modifier at position k of 3
